@@ -16,7 +16,7 @@ func init() {
 	probeNames["C16"] = []string{"bitflip", "copy_of_other", "tear_over_old", "tear_zero", "zeroed", "scribble", "field", "outside_header", "both_damaged", "damaged_newest", "damaged_older", "still_valid_skipped", "txid_wrap", "slot0_newest", "slot1_newest"}
 	register(&PropDef{
 		ID: "C16", Level: "fault_enumeration", QuickSec: 55, ThoroSec: 1200,
-		Rule: "each run = one seeded committed history (all page sizes, some re-based to txids around 2^64 and 2^63); after a seeded commit n an image is taken (S_n and S_{n-1} both intact). Evaluations = damaged images opened by the real engine: for each of the two header slots all 672 single-bit flips of the 84 header bytes, all byte-prefix tears (prefix of the slot content followed by the slot's previous content, and followed by zeros), zeroed slot, 64 random multi-byte scribbles (thorough; 24 quick), bit flips in the rest of the header page (must change nothing), and sampled pairs with both slots damaged. Oracle: newest slot damaged => Open succeeds and state == S_{n-1} (by header txid and full content); older slot damaged => S_n; damage outside the 84 bytes => S_n; both damaged => Open returns an error; never a panic. A damaged slot that still validates (checksum collision or no-op tear) is skipped and counted. Non-trivial = damaged image whose damaged slot no longer validates; distinct = (run, slot, kind, offset, bit/len).",
+		Rule: "each run = one seeded committed history (all page sizes, some re-based to txids around 2^64 and 2^63); after a seeded commit n an image is taken (S_n and S_{n-1} both intact). Evaluations = damaged images opened by the real engine: for each of the two header slots all 672 single-bit flips of the 84 header bytes, all byte-prefix tears (prefix of the slot content followed by the slot's previous content, and followed by zeros), zeroed slot, 64 random multi-byte scribbles (thorough; 24 quick), bit flips in the rest of the header page (must change nothing), and sampled pairs with both slots damaged. Oracle: newest slot damaged => Open succeeds and state == S_{n-1} (by header txid and full content); older slot damaged => S_n; damage outside the 84 bytes => S_n; both damaged => Open returns an error; never a panic. 1 run in 40 also writes the image with both headers damaged to a real sparse file of 2-4 GiB and opens it through the real osfs (must return an error; a scan that does not terminate is reported by the run monitor as a hang). A damaged slot that still validates (checksum collision or no-op tear) is skipped and counted. Non-trivial = damaged image whose damaged slot no longer validates; distinct = (run, slot, kind, offset, bit/len).",
 		Real: defaultReal, Stub: defaultStub, Assume: append(append([]string{}, defaultAssume...), "header layout and FNV-32a checksum over the first 80 bytes as documented in layout.go (harness recomputes validity independently)"),
 		FaultKinds: []string{"stored header bit flip", "torn header write (byte prefix)", "zeroed header", "random multi-byte damage", "both headers damaged"},
 		Body:       c16Body,
